@@ -17,7 +17,8 @@ PNames == <<"p1", "p2", "p3", "p4">>
 ArgLits == <<Lit(I(1)), Var(<<"nope">>), Var(<<"mk">>), Lit(B(TRUE)), Lit(S(<<"b">>))>>   \* the i-th argument (the second one evaluates to nil: supplied, not omitted)
 DefLits == <<Lit(S(<<"d","1">>)), Var(<<"outer">>), Lit(I(20)), Bin("+", Var(<<"outer">>), Lit(S(<<"x">>)))>>
 
-Ctx == [mk |-> S(<<"M1">>), outer |-> S(<<"o">>), l2 |-> L(<<I(1), I(2)>>)]
+\* (p2 and p4 are also keys of the caller's context: a parameter hides them inside the macro, supplied or not)
+Ctx == [mk |-> S(<<"M1">>), outer |-> S(<<"o">>), l2 |-> L(<<I(1), I(2)>>), p2 |-> S(<<"c", "2">>), p4 |-> I(44)]
 
 RECURSIVE Flatten2(_)
 Flatten2(ss) == IF ss = <<>> THEN <<>> ELSE Head(ss) \o Flatten2(Tail(ss))
